@@ -6,6 +6,7 @@ from .spec import *
 
 class Unsupported(Exception): pass
 class ContractDrift(Exception): pass
+class ContractError(Exception): pass
 
 def loop_signatures(fn):
     """pre-order list of (kind, nesting depth, loop variables) of a function's loops.  The iterated expression / loop test is deliberately NOT part of
@@ -38,9 +39,9 @@ class Ref:
     def __init__(self, root, steps): self.root, self.steps = root, list(steps)
 
 class State:
-    def __init__(self): self.env = {}; self.old = None; self.undef = set()
+    def __init__(self): self.env = {}; self.old = None; self.undef = set(); self.qbound = frozenset()
     def copy(self):
-        n = State(); n.env = dict(self.env); n.old = self.old; n.undef = set(self.undef); return n
+        n = State(); n.env = dict(self.env); n.old = self.old; n.undef = set(self.undef); n.qbound = self.qbound; return n
 
 class Outcome:
     def __init__(self, kind, state, pc, value=None, exc=None):
@@ -55,6 +56,10 @@ def py_floordiv(a, d):
 def py_mod(a, d):
     r = a % d
     return z3.If(d > 0, r, z3.If(r == 0, r, r + d))
+def set_has(sz, x):
+    """membership in a set value; a set built by a comprehension-like rule is a lambda and is beta-reduced here (E-matching does not look through as-array terms)"""
+    if z3.is_quantifier(sz) and sz.is_lambda(): return z3.substitute_vars(sz.body(), x)
+    return z3.Select(sz, x)
 def to_real(v): return z3.ToReal(v.z) if isinstance(v.t, IntT) else v.z
 
 CMP = {"Eq": operator.eq, "NotEq": operator.ne, "Lt": operator.lt, "LtE": operator.le, "Gt": operator.gt, "GtE": operator.ge,
@@ -240,6 +245,19 @@ class FnExec:
             self.oblige(f"safe.defined({steps[0][1]})@{n.lineno}", "safe.defined", pc, z3.BoolVal(False), n)
         return self.read_path(st, root, steps)
     def e_Subscript(self, n, st, pc):
+        if isinstance(n.slice, ast.Slice):
+            base = self.expr(n.value, st, pc); t = base.t; sl = n.slice
+            if not isinstance(t, ListT) or t.elem.mutable or sl.step is not None: raise Unsupported("slice of " + repr(t))
+            ln = t.len(base.z)
+            def norm(e, dflt):      # Python's clamping of a slice bound: negative counts from the end, then clamp into [0, len]
+                if e is None: return dflt
+                v = self.expr(e, st, pc).z; return z3.If(v < 0, z3.If(v + ln < 0, 0, v + ln), z3.If(v > ln, ln, v))
+            lo, hi = norm(sl.lower, z3.IntVal(0)), norm(sl.upper, ln)
+            asort = t.arr(base.z).sort(); SL = z3.Function(f"seq_slice_{abs(hash(asort.sexpr())) % 10**8}", asort, z3.IntSort(), asort)
+            if SL.name() not in self.th.funcs:
+                self.th.funcs[SL.name()] = SL; a_ = z3.Const("sla_", asort); p_, t_ = z3.Ints("slp_ slt_")
+                self.th.axioms.append(z3.ForAll([a_, p_, t_], z3.Select(SL(a_, p_), t_) == z3.Select(a_, p_ + t_), patterns=[z3.Select(SL(a_, p_), t_)]))
+            return Val(t, t.make(z3.If(hi > lo, hi - lo, 0), SL(t.arr(base.z), lo), like=base.z))
         base = self.expr(n.value, st, pc); idx = self.expr(n.slice, st, pc); t = base.t
         if isinstance(t, ListT):
             i = idx.z
@@ -283,6 +301,8 @@ class FnExec:
             pc.append(a.t.len(out.z) == z3.If(b.z > 0, b.z, 0))
             pc.append(z3.ForAll([q], z3.Implies(z3.And(0 <= q, q < b.z), a.t.at(out.z, q) == a.t.at(a.z, 0))))
             return out
+        if op == "Sub" and isinstance(a.t, SetT) and isinstance(b.t, SetT) and type(a.t.elem) is type(b.t.elem):
+            x = z3.Const(f"sx!{uid()}", a.t.elem.sort()); return Val(a.t, z3.Lambda([x], z3.And(set_has(a.z, x), z3.Not(set_has(b.z, x)))))
         if op == "Pow" and "pow" in self.reg.binop_hooks:
             r = self.reg.binop_hooks["pow"](self, a, b, pc, n)
             if r is not None: return r
@@ -309,7 +329,7 @@ class FnExec:
             if o in ("In", "NotIn"):
                 t = right.t
                 if isinstance(t, DictT): z = z3.Select(t.dom(right.z), left.z)
-                elif isinstance(t, SetT): z = z3.Select(right.z, left.z)
+                elif isinstance(t, SetT): z = set_has(right.z, left.z)
                 elif isinstance(t, ListT):
                     i = fresh_int("in"); z = z3.Exists([i], z3.And(0 <= i, i < t.len(right.z), t.at(right.z, i) == left.z))
                 else: raise Unsupported(f"`in` on {t!r}")
@@ -414,6 +434,22 @@ class FnExec:
                 if isinstance(a.t, IntT): return a
             if nm == "set" and len(n.args) == 1 and isinstance(n.args[0], ast.List):
                 return self.e_Set(ast.Set(elts=n.args[0].elts), st, pc)
+            if nm == "set" and len(n.args) == 1:
+                a = self.expr(n.args[0], st, pc)
+                if isinstance(a.t, ListT) and not a.t.elem.mutable:              # set(xs): the members of the list
+                    x = z3.Const(f"sx!{uid()}", a.t.elem.sort()); i = fresh_int("si")
+                    return Val(SetT(a.t.elem), z3.Lambda([x], z3.Exists([i], z3.And(0 <= i, i < a.t.len(a.z), a.t.at(a.z, i) == x))))
+                if isinstance(a.t, SetT): return a
+            if nm == "range" and len(n.args) == 3:
+                lo, hi, stp = [self.expr(x, st, pc).z for x in n.args]
+                self.branch_exc(pc, stp == 0, "ValueError", n)
+                LI = ListT(INT); RF = z3.Function("py_range3", z3.IntSort(), z3.IntSort(), z3.IntSort(), LI.sort())
+                if "py_range3" not in self.th.funcs:      # range(lo, hi, step): the q-th element is lo + q*step; its length is left as an opaque non-negative function of the three bounds
+                    self.th.funcs["py_range3"] = RF; l_, h_, s_, q_ = z3.Ints("r3l_ r3h_ r3s_ r3q_")
+                    self.th.axioms.append(z3.ForAll([l_, h_, s_], LI.len(RF(l_, h_, s_)) >= 0, patterns=[RF(l_, h_, s_)]))
+                    self.th.axioms.append(z3.ForAll([l_, h_, s_, q_], LI.at(RF(l_, h_, s_), q_) == l_ + q_ * s_, patterns=[LI.at(RF(l_, h_, s_), q_)]))
+                self.assumptions.add("range(lo, hi, step): element q is lo + q*step; len(range(lo, hi, step)) is used as an opaque non-negative function of its arguments")
+                return Val(LI, RF(lo, hi, stp))
             if nm == "range" and len(n.args) in (1, 2):
                 a = [self.expr(x, st, pc).z for x in n.args]; lo, hi = (z3.IntVal(0), a[0]) if len(a) == 1 else (a[0], a[1])
                 LI = ListT(INT); RF = z3.Function("py_range", z3.IntSort(), z3.IntSort(), LI.sort())
@@ -432,6 +468,12 @@ class FnExec:
             # Class.static(...)
             if isinstance(f.value, ast.Name) and self.reg.has_fn(f"{f.value.id}.{f.attr}") and f.value.id not in st.env:
                 return self.call_contract(f"{f.value.id}.{f.attr}", None, n, st, pc)
+            if isinstance(f.value, ast.Call) and isinstance(f.value.func, ast.Name) and f.value.func.id == "super" and not f.value.args and self.cls:
+                # super().m(...): the method as the first declared base class (transitively) defines it, applied to self through its contract
+                for b in getattr(self.reg.cls(self.cls), "bases", []) or []:
+                    q, owner = self.reg.resolve_method(b, f.attr)
+                    if q is not None: return self.call_contract(q, ("self", [], st.env["self"]), n, st, pc, owner=owner)
+                raise Unsupported(f"super().{f.attr}: no base class of {self.cls} under contract defines it")
             try:
                 root, steps = self.path_of(f.value, st, pc); recv = self.read_path(st, root, steps)
             except Unsupported:
@@ -507,7 +549,9 @@ class FnExec:
         finally: self.mode = saved
 
     def bind_q(self, st, var, val):
-        s2 = st.copy(); s2.env[var] = val
+        # a nested quantifier that re-binds the name of an enclosing one silently captures it (a contract-writing error that made a wrong clause provable once)
+        if var in st.qbound: raise ContractError(f"{self.qual}: bound variable `{var}` is re-bound by a nested quantifier (capture)")
+        s2 = st.copy(); s2.env[var] = val; s2.qbound = st.qbound | {var}
         if st.old is not None: s2.old = st.old.copy(); s2.old.env[var] = val
         return s2
 
@@ -863,6 +907,12 @@ class FnExec:
             def bind(state, g): self.assign(s.target, Val(seq.t.elem, seq.t.at(seq.z, seq.t.len(seq.z) - 1 - g["IT"])), state, [])
         elif isinstance(it, (ast.Name, ast.Attribute)):
             root, steps = self.path_of(it, st, pc); seq = self.read_path(st, root, steps)
+            if isinstance(seq.t, SetT):
+                # iteration over a set: a ghost duplicate-free enumeration ELEMS of exactly its members, in an unspecified order (invariants may name ELEMS)
+                es = self.elemseq(seq, pc, st); st.env["ELEMS"] = es; lo, hi = z3.IntVal(0), es.t.len(es.z)
+                def bind(state, g): self.assign(s.target, Val(es.t.elem, es.t.at(es.z, g["IT"])), state, [])
+                top = z3.If(hi > lo, hi, lo)
+                return self.loop_generic(s, st, pc, k, lspec, {"IT": lo}, lambda g: g["IT"] < hi, bind, lambda g: {"IT": g["IT"] + 1}, lambda g: [lo <= g["IT"], g["IT"] <= top])
             if not isinstance(seq.t, ListT): raise Unsupported(f"for over {seq.t!r}")
             lo, hi = z3.IntVal(0), seq.t.len(seq.z)
             def bind(state, g): self.bind_item(state, s.target, root, steps, seq, g["IT"])
@@ -888,6 +938,16 @@ class FnExec:
     def s_Break(self, s, st, pc): return [Outcome("break", st, pc)]
     def s_Continue(self, s, st, pc): return [Outcome("continue", st, pc)]
 
+    def elemseq(self, sv, pc, st=None):
+        """ghost duplicate-free enumeration ELEMS of a set's members (iteration order is left unspecified); ELEMIDX[x] = the position of member x"""
+        t = sv.t; es = fresh(ListT(t.elem), "ELEMS"); i = fresh_int("i"); xq = z3.Const(f"xq!{uid()}", t.elem.sort())
+        L = es.t.len(es.z); it = ArrT(t.elem, INT); idx = fresh(it, "ELEMIDX")
+        pc.append(L >= 0)
+        pc.append(z3.ForAll([i], z3.Implies(z3.And(0 <= i, i < L), z3.And(set_has(sv.z, es.t.at(es.z, i)), z3.Select(idx.z, es.t.at(es.z, i)) == i)), patterns=[es.t.at(es.z, i)]))
+        pc.append(z3.ForAll([xq], z3.Implies(set_has(sv.z, xq), z3.And(0 <= z3.Select(idx.z, xq), z3.Select(idx.z, xq) < L, es.t.at(es.z, z3.Select(idx.z, xq)) == xq)), patterns=[z3.Select(idx.z, xq)]))
+        self.assumptions.add("iterating a set visits every member exactly once, in an unspecified order")
+        if st is not None: st.env["ELEMIDX"] = idx
+        return es
     def keyseq(self, d, pc):
         """ghost duplicate-free enumeration of a dict's keys (iteration order is left unspecified)"""
         t = d.t; ks = fresh(ListT(t.k), "KEYS"); i, j = fresh_int("i"), fresh_int("j"); kq = z3.Const(f"kq!{uid()}", t.k.sort())
